@@ -4,6 +4,8 @@ set -u
 P=$1; C=$2; T=${3:-quick}
 cd /repo && git apply --check "$P" || { echo "PATCH DOES NOT APPLY"; exit 3; }
 git apply "$P"
+mkdir -p /tmp/evsave && cp /verif/evidence/*.json /tmp/evsave/ 2>/dev/null
 cd /verif && VERIF_TIER=$T timeout 3600 python3-vt checks/$C.py > /tmp/mut_$C.log 2>&1; rc=$?
 git -C /repo checkout -- .
+cp /tmp/evsave/*.json /verif/evidence/ 2>/dev/null; rm -rf /tmp/evsave
 echo "exit=$rc"; grep -c "^VIOLATION" /tmp/mut_$C.log; grep -A2 "^VIOLATION" /tmp/mut_$C.log | head -8; tail -2 /tmp/mut_$C.log
